@@ -33,8 +33,49 @@ def st(op, args, kwargs, modes=None, style="none"):
     return ("stmt", op, args, kwargs, modes or [N("0")], style)
 
 
+def _template_array_features(p):
+    """(has an object-dtype array as argument or tdm variable, parameters that occur in no operation argument)"""
+    import numpy as np
+    import sympy as sym
+    obj_arg = False
+    used = set()
+
+    def walk(v):
+        nonlocal obj_arg
+        if isinstance(v, np.ndarray):
+            if v.dtype == object:
+                obj_arg = True
+                for x in v.flatten().tolist():
+                    walk(x)
+        elif isinstance(v, sym.Expr):
+            used.update(str(x) for x in v.free_symbols)
+        elif isinstance(v, (list, tuple)):
+            for x in v:
+                walk(x)
+    for o in p.operations:
+        for v in list(o.get("args", [])) + list(o.get("kwargs", {}).values()):
+            walk(v)
+    if p.programtype.get("name") == "tdm":
+        for v in p.variables.values():
+            if isinstance(v, np.ndarray) and v.dtype == object:
+                obj_arg = True
+    return obj_arg, set(p.parameters) - used
+
+
 def roundtrip(text):
     """None | 'skip' | (key, detail)"""
+    r = _roundtrip(text)
+    if isinstance(r, tuple):
+        s1, p = common.loads(text)
+        obj_arg, unused = _template_array_features(p)
+        if obj_arg and r[0].startswith("C01/dumps-raises:") and ("@gen1" in r[0]) and ("unsupported type" in r[1] or "KeyError: 'O'" in r[1]):
+            return ("C01/array-with-parameters-not-serialisable", r[1])
+        if unused and r[0].startswith("C01/differs:parameters@gen1"):
+            return ("C01/parameter-only-in-unserialised-variable", r[1])
+    return r
+
+
+def _roundtrip(text):
     s1, p = common.loads(text)
     if s1 == "exc":
         return "skip"
